@@ -279,12 +279,13 @@ func c09Locks(c *core.Ctx) (*c09limiter, []*c09fn) {
 			return nil, nil
 		}
 		lim.types[n.Obj()] = true
+		roles := c09limiterFields(c, pkg, n)
+		if roles == nil {
+			return nil, nil
+		}
 		for _, fld := range []string{"state", "startTime", "cycle", "tokens"} {
-			v := structField(c, c09lib, typ, fld)
-			if v == nil {
-				return nil, nil
-			}
-			lim.guards[v] = typ + "." + fld
+			v := roles[fld]
+			lim.guards[v] = typ + "." + v.Name()
 			if fld == "tokens" {
 				lim.tokens[v] = true
 			}
@@ -830,6 +831,10 @@ func c09Dimensions(c *core.Ctx, lim *c09limiter, fns []*c09fn) {
 				if l.Pos() <= v.Pos() && v.Pos() < l.End() {
 					return nil // declared by / inside the loop: fresh in every iteration (or the loop counter)
 				}
+				switch v.Type().Underlying().(type) {
+				case *types.Slice, *types.Map, *types.Array:
+					return nil // a container built element by element (append) keeps the dimensions apart
+				}
 				if !influences[v] {
 					return nil // feeds no decision, result or limiter state (e.g. a total kept for a log line)
 				}
@@ -970,4 +975,126 @@ func c09influencing(f *flow.Func) map[types.Object]bool {
 			return in
 		}
 	}
+}
+
+// c09limiterFields resolves the guarded fields of a limiter struct by role, so that renaming the
+// unexported fields does not lose them: state = the field of the package's State type, startTime =
+// the time.Time field, tokens = the []int field (multi limiter) or the int field that some method
+// of the type assigns a value computed from one of its parameters (the reservation), cycle = the
+// other int field. The declared names tokens / cycle break ties. Ambiguity is a checker error.
+func c09limiterFields(c *core.Ctx, pkg *packages.Package, n *types.Named) map[string]*types.Var {
+	st, ok := n.Underlying().(*types.Struct)
+	if !ok {
+		c.Errorf("anchor: %s.%s is not a struct", c09lib, n.Obj().Name())
+		return nil
+	}
+	roles := map[string]*types.Var{}
+	var ints []*types.Var
+	put := func(role string, v *types.Var) bool {
+		if roles[role] != nil {
+			c.Errorf("anchor: %s.%s has two fields that fit the role %q (%s, %s)", c09lib, n.Obj().Name(), role, roles[role].Name(), v.Name())
+			return false
+		}
+		roles[role] = v
+		return true
+	}
+	for i := 0; i < st.NumFields(); i++ {
+		v := st.Field(i)
+		t := v.Type()
+		switch {
+		case t.String() == "time.Time":
+			if !put("startTime", v) {
+				return nil
+			}
+		case t.String() == pkg.PkgPath+".State":
+			if !put("state", v) {
+				return nil
+			}
+		default:
+			switch u := t.Underlying().(type) {
+			case *types.Slice:
+				if b, ok := u.Elem().Underlying().(*types.Basic); ok && b.Kind() == types.Int {
+					if !put("tokens", v) {
+						return nil
+					}
+				}
+			case *types.Basic:
+				if u.Kind() == types.Int && types.Identical(t, types.Typ[types.Int]) {
+					ints = append(ints, v)
+				}
+			}
+		}
+	}
+	if roles["tokens"] != nil {
+		// multi limiter: the only int field is the cycle
+		if len(ints) == 1 {
+			roles["cycle"] = ints[0]
+		}
+	} else if len(ints) == 2 {
+		// which of the two is assigned something computed from a method parameter?
+		fromParam := map[*types.Var]bool{}
+		for _, fd := range c09pkgFuncs(pkg) {
+			g := flow.NewFunc(pkg, fd)
+			rv := c09recv(g)
+			if rv == nil {
+				continue
+			}
+			rt := rv.Type()
+			if p, ok := rt.(*types.Pointer); ok {
+				rt = p.Elem()
+			}
+			if !types.Identical(rt, n) {
+				continue
+			}
+			params := map[types.Object]bool{}
+			for _, p := range c09params(g) {
+				params[p] = true
+			}
+			ast.Inspect(fd.Body, func(x ast.Node) bool {
+				as, ok := x.(*ast.AssignStmt)
+				if !ok {
+					return true
+				}
+				for _, l := range as.Lhs {
+					fld := c09fieldOf(g, l)
+					if fld != ints[0] && fld != ints[1] {
+						continue
+					}
+					for _, r := range as.Rhs {
+						if c09mentions(g, r, params) {
+							fromParam[fld] = true
+						}
+					}
+				}
+				return true
+			})
+		}
+		switch {
+		case fromParam[ints[0]] && !fromParam[ints[1]]:
+			roles["tokens"], roles["cycle"] = ints[0], ints[1]
+		case fromParam[ints[1]] && !fromParam[ints[0]]:
+			roles["tokens"], roles["cycle"] = ints[1], ints[0]
+		}
+	}
+	// declared names as tie-breaker / fallback
+	for _, role := range []string{"tokens", "cycle"} {
+		if roles[role] == nil {
+			for i := 0; i < st.NumFields(); i++ {
+				if st.Field(i).Name() == role {
+					roles[role] = st.Field(i)
+				}
+			}
+		}
+	}
+	for _, role := range []string{"state", "startTime", "cycle", "tokens"} {
+		if roles[role] == nil {
+			c.Errorf("anchor: cannot identify the %s field of %s.%s by role (type and usage)", role, c09lib, n.Obj().Name())
+			return nil
+		}
+	}
+	if roles["tokens"] == roles["cycle"] {
+		c.Errorf("anchor: tokens and cycle of %s.%s resolve to the same field", c09lib, n.Obj().Name())
+		return nil
+	}
+	return roles
 }
